@@ -1,12 +1,196 @@
 /-
   C07 — all query front ends, cursors and groupby agree with find_jobs.
-  Property theorems only; helper lemmas live in Signac/Proofs/Query*.lean.
+  Property theorems only; helper lemmas live in Signac/Proofs/QueryFront.lean.
+
+  Reading guide.  `ofJson` is `dict(_add_prefix(filter))` + the pops of `_find_result`; `nf` is
+  the flattened normal form of a filter (dotted keys at every level).  `findFlt` / `evalRef` are
+  as in C06.  `parseFilterArg C toks` is `parse_filter_arg` with CPython's `int`, `float`,
+  `json.loads` as the parameter `C`.  `Cursor.*` are the `JobsCursor` methods over its cached id
+  list.  `groupby` resolves dotted keys through sub-mappings (fix F-7).
 -/
-import Signac.Proofs.QueryCorpus
+import Signac.Proofs.QueryFront
 namespace Signac.C07
 open Signac Signac.Query
 
-/-- `len(cursor)` is the number of ids the cursor holds. -/
-theorem cursor_len (ids : List JobId) : Cursor.len ids = ids.length := rfl
+/-! ### spellings -/
+
+/-- Everything `find_jobs` and the reference evaluator see of a filter is its flattened normal
+    form: two spellings with the same normal form select the same jobs (and raise the same
+    exceptions) on every corpus. -/
+theorem spellings_same_result {f g : Flt} (h : nf f = nf g) (P : Params) :
+    (∀ c, findFlt P c f = findFlt P c g) ∧ ∀ d, evalRef P d f = evalRef P d g :=
+  same_nf_same_result h P
+
+/-- Nested mapping vs dotted key: `{k: {k2: v, …}}` and `{"k.k2": v, …}` have the same normal form
+    (with logical operators `n a o` alongside, at any depth of `k`). -/
+theorem nested_eq_dotted (k : String) (kv : String × JVal) (rest : List (String × JVal))
+    (n : Option Flt) (a o : Option (List Flt)) :
+    nf (.mk [(k, .obj (kv :: rest))] n a o)
+      = nf (.mk ((kv :: rest).map (fun p => (k ++ "." ++ p.1, p.2))) n a o) := by
+  simp only [nf, flatten_nested]
+
+/-- Operator as nested mapping vs key suffix: `{k: {"$lt": v}}` and `{"k.$lt": v}`. -/
+theorem op_suffix_eq_nested (k op : String) (v : JVal) (n : Option Flt) (a o : Option (List Flt)) :
+    nf (.mk [(k, .obj [(op, v)])] n a o) = nf (.mk [(k ++ "." ++ op, v)] n a o) :=
+  nested_eq_dotted k (op, v) [] n a o
+
+/-- A rewriting step may be applied to one entry among others: flattening is compositional. -/
+theorem spelling_in_context (xs ys zs zs' : List (String × JVal)) (h : flatten zs = flatten zs')
+    (n : Option Flt) (a o : Option (List Flt)) :
+    nf (.mk (xs ++ zs ++ ys) n a o) = nf (.mk (xs ++ zs' ++ ys) n a o) := by
+  simp only [nf, flatten_append, h]
+
+/-- A one-entry filter with a non-logical key is that entry, prefixed. -/
+theorem ofJson_single (k : String) (v : JVal) (h : k ≠ "$and" ∧ k ≠ "$or" ∧ k ≠ "$not") :
+    ofJson (.obj [(k, v)]) = .ok (.mk [(prefixKey k, v)] none none none) := by
+  unfold ofJson ofEntries
+  rw [if_neg (by simp [h.1, h.2.1]), if_neg h.2.2]
+  rfl
+
+/-- The `sp.` prefix is optional: a key without a namespace of its own is prefixed to exactly what
+    the explicitly prefixed key is. -/
+theorem sp_prefix_optional (k : String) (v : JVal)
+    (h1 : ¬ (k.toList.contains '.' = true ∧ (rootOf k = "sp" ∨ rootOf k = "doc")))
+    (h2 : k ≠ "sp" ∧ k ≠ "doc") (h3 : k ≠ "$and" ∧ k ≠ "$or" ∧ k ≠ "$not") :
+    ofJson (.obj [(k, v)]) = ofJson (.obj [("sp." ++ k, v)]) := by
+  have e : prefixKey ("sp." ++ k) = prefixKey k := prefixKey_optional k (prefixKey_plain k h1 h2)
+  have ne : ∀ s : String, s.toList.head? = some '$' → "sp." ++ k ≠ s := by
+    intro s hs heq
+    have := congrArg String.toList heq
+    rw [toList_sp_dot] at this
+    rw [← this] at hs
+    simp at hs
+  rw [ofJson_single k v h3, ofJson_single ("sp." ++ k) v ⟨ne "$and" rfl, ne "$or" rfl, ne "$not" rfl⟩, e]
+
+/-- The namespace may be given as a mapping: `{"sp": {k: v}}` and `{"sp.k": v}` (same for `doc`). -/
+theorem namespace_as_mapping (k : String) (v : JVal) (n : Option Flt) (a o : Option (List Flt)) :
+    nf (.mk [("sp", .obj [(k, v)])] n a o) = nf (.mk [("sp." ++ k, v)] n a o)
+    ∧ nf (.mk [("doc", .obj [(k, v)])] n a o) = nf (.mk [("doc." ++ k, v)] n a o) := by
+  constructor
+  · rw [op_suffix_eq_nested]; rfl
+  · rw [op_suffix_eq_nested]; rfl
+
+/-! ### command line syntax -/
+
+/-- `signac find <tokens>` evaluates the mapping the tokens parse to (and no tokens = all jobs). -/
+theorem cli_eq_mapping (P : Params) (C : CliParams) (c : Corpus) (toks : List String) :
+    findCli P C c toks = (match parseFilterArg C toks with
+      | .error e => .error e
+      | .ok none => .ok (c.map (·.id))
+      | .ok (some f) => findJobs P c f) := rfl
+
+/-- `key value` denotes `{key: cast(value)}` for a plain key and a plain value token. -/
+theorem cli_pair (C : CliParams) (k v : String) (j : JVal)
+    (hk : isJsonLike k = .ok false) (hv1 : v ≠ "!") (hv2 : isJsonLike v = .ok false)
+    (hv3 : isRegexTok v = false) (hc : cast C v = .ok j) :
+    parseFilterArg C [k, v] = .ok (some (.obj [(k, j)])) := by
+  simp [parseFilterArg, parseSimpleDict, parseSimple, parseSingle, hk, hv1, hv2, hv3, hc, dictOfPairs,
+    dictCons, lookupKV]
+
+/-- a lone key (and `key !`) denotes `{key: {"$exists": true}}`. -/
+theorem cli_exists (C : CliParams) (k : String) (hk : isJsonLike k = .ok false) :
+    parseFilterArg C [k] = .ok (some (.obj [(k, existsTrue)]))
+    ∧ parseFilterArg C [k, "!"] = .ok (some (.obj [(k, existsTrue)])) := by
+  constructor
+  · simp [parseFilterArg, parseSingle, hk]
+  · simp [parseFilterArg, parseSimpleDict, parseSimple, parseSingle, hk, dictOfPairs, dictCons, lookupKV]
+
+/-- a single JSON-looking token is the filter itself. -/
+theorem cli_json (C : CliParams) (a : String) (j : JVal) (ha : isJsonLike a = .ok true)
+    (hj : C.jsonLoads a = some j) : parseFilterArg C [a] = .ok (some j) := by
+  simp [parseFilterArg, ha, hj]
+
+/-- An int token and a float token of the same integer value are the same query (`a 4` = `a 4.0`):
+    plain keys are looked up through the integer the value denotes. -/
+theorem cli_int_eq_float (P : Params) (docs : List (JobId × JVal)) (k : String) (n : Int)
+    (hk : ∃ nodes, analyseKey k = .plain nodes) (r : String) :
+    findExpression P docs k (.int n) = findExpression P docs k (.flt n 0 r) := by
+  refine findExpression_intValued hk (n := n) ?_ ?_
+  · simp [intValued, numVal, isNumber]
+  · simp [intValued, numVal, isNumber]
+
+/-! ### cursor -/
+
+/-- `len`, indexing from both ends, slicing and membership all describe the cursor's id list. -/
+theorem cursor_consistent (ids : List JobId) :
+    Cursor.len ids = ids.length
+    ∧ (∀ i : Nat, Cursor.getitem ids (i : Int) = ids[i]?)
+    ∧ (∀ k : Nat, 0 < k → Cursor.getitem ids (-(k : Int)) = if k ≤ ids.length then ids[ids.length - k]? else none)
+    ∧ (∀ j, Cursor.contains ids j = true ↔ j ∈ ids)
+    ∧ Cursor.slice ids none none none = some ids
+    ∧ (∀ a b, Cursor.slice ids a b (some 0) = none)
+    ∧ (∀ a b s xs, Cursor.slice ids a b s = some xs → ∀ x ∈ xs, x ∈ ids) :=
+  ⟨rfl, getitem_nat ids, getitem_neg ids, contains_iff ids, slice_all ids, slice_step_zero ids,
+    fun _ _ _ _ h => slice_mem h⟩
+
+/-! ### groupby -/
+
+/-- `groupby(key[, default])` partitions exactly the jobs its pre-filter selects: the members of
+    all groups together are a permutation of the selected ids, and every member's own value for the
+    key is the group's label (the first member's value) or `==` to it. -/
+theorem groupby_partition (P : Params) (c : Corpus) (flt : JVal) (gk : GroupKeys) (dflt : Option JVal)
+    (gs : List (JVal × List JobId)) (h : groupby P c flt gk dflt = .ok gs) :
+    ∃ ids, findJobs P c (groupFilter flt gk dflt) = .ok ids ∧
+      (gs.flatMap (·.2)).Perm ((c.map (·.id)).filter (fun i => ids.contains i)) ∧
+      ∀ g ∈ gs, ∀ i ∈ g.2, ∃ j ∈ c, j.id = i ∧ ∃ l, labelOf j gk dflt = .ok l ∧ (g.1 = l ∨ pyEq g.1 l = true) :=
+  groupby_spec h
+
+/-- With distinct job ids no job is in two groups (nor twice in one). -/
+theorem groupby_disjoint (P : Params) (c : Corpus) (flt : JVal) (gk : GroupKeys) (dflt : Option JVal)
+    (gs : List (JVal × List JobId)) (hids : (c.map (·.id)).Nodup)
+    (h : groupby P c flt gk dflt = .ok gs) : (gs.flatMap (·.2)).Nodup := by
+  obtain ⟨ids, _, hp, _⟩ := groupby_spec h
+  exact hp.nodup_iff.mpr (hids.filter _)
+
+/-- The pre-filter: without a default only jobs having the key(s) are grouped, on top of the
+    cursor's own filter; with a default the cursor's filter alone. -/
+theorem groupby_prefilter (flt : JVal) (k : String) (d : JVal) (hf : falsy flt = false) :
+    groupFilter flt (.single k) none = .obj [("$and", .arr [.obj [(k, existsTrue)], flt])]
+    ∧ groupFilter flt (.single k) (some d) = flt
+    ∧ groupFilter (.obj []) (.single k) none = .obj [(k, existsTrue)] := by
+  refine ⟨?_, ?_, rfl⟩
+  · cases flt with
+    | obj kvs => cases kvs with
+      | nil => simp [falsy] at hf
+      | cons _ _ => rfl
+    | null => simp [falsy] at hf
+    | _ => rfl
+  · cases flt with
+    | obj kvs => cases kvs with
+      | nil => simp [falsy] at hf
+      | cons _ _ => rfl
+    | null => simp [falsy] at hf
+    | _ => rfl
+
+/-- Not proved (kept as a statement; checked on every generated grouping by the brute-force
+    oracle): two different groups never carry `==` labels.  It needs that sorting by `<` makes
+    `==` labels adjacent, i.e. transitivity of Python's ordering on the labels at hand. -/
+def groupby_labels_distinct_full : Prop :=
+  ∀ (P : Params) (c : Corpus) (flt : JVal) (gk : GroupKeys) (dflt : Option JVal)
+    (gs : List (JVal × List JobId)), groupby P c flt gk dflt = .ok gs →
+    gs.Pairwise (fun g g' => pyEq g.1 g'.1 = false)
+
+/-! ### non-vacuity -/
+
+/-- `{"n": {"x": {"$lt": 3}}, "a": 1}` and `{"n.x.$lt": 3, "a": 1}` have the same normal form. -/
+example :
+    nf (.mk [("sp.n", .obj [("x", .obj [("$lt", .int 3)])]), ("sp.a", .int 1)] none none none)
+      = nf (.mk [("sp.n.x.$lt", .int 3), ("sp.a", .int 1)] none none none) := by rfl
+
+def P0 : Params :=
+  { rx := fun _ _ => some false, floatStr := fun _ => true, isclose := fun _ _ _ _ => some false }
+
+def gC : Corpus :=
+  [⟨"p", .obj [("n", .obj [("x", .int 2)])], none⟩, ⟨"q", .obj [("n", .obj [("x", .flt 2 0 "2.0")])], none⟩,
+   ⟨"r", .obj [("n", .obj [("x", .int 1)])], none⟩]
+
+/-- grouping three jobs by the nested key `n.x`: two groups, `1` and `2 == 2.0`. -/
+example : groupby P0 gC (.obj []) (.single "n.x") none
+    = .ok [(.int 1, ["r"]), (.int 2, ["p", "q"])] := by rfl
+
+example : ∃ (C : CliParams) (k v : String) (j : JVal), isJsonLike k = .ok false ∧ v ≠ "!" ∧
+    isJsonLike v = .ok false ∧ isRegexTok v = false ∧ cast C v = .ok j :=
+  ⟨⟨fun _ => some 4, fun _ => none, fun _ => none⟩, "a", "4", .int 4, by decide, by decide, by decide,
+    by decide, by rfl⟩
 
 end Signac.C07
